@@ -2,8 +2,10 @@
    Invariants of the interleaving semantics (Base/Conc.v) for the step machines of
    Model/CounterGauge.v, for ALL program lists and ALL schedules.
    Layout: 0 list helpers; 1 generic facts about sched_step / advance / init_config and the
-   timing invariant GI; 2 to_bits is injective; 3 gauge; 4 counter; 5 float monotonicity;
-   6 counter monotone / quiescent; 7 examples. *)
+   timing invariant GI; 2 to_bits is injective; 3 gauge invariant (G1); 4 counter invariant (C1-C3);
+   5 float monotonicity on non-negative operands; 6 every call is accounted for exactly once;
+   7 counter monotone / quiescent (C4, C5); 8 gauge quiescent, checker completeness (G3, G2);
+   9 observables for the examples; 10 exact addition on a common grid (order independence). *)
 From Coq Require Import ZArith List Bool Lia Reals Lra ZifyBool Sorted Permutation.
 From Flocq Require Import Core.Core IEEE754.BinarySingleNaN.
 From Verif Require Import Base.F64 Base.Conc Model.CounterGauge Proofs.F64_order.
@@ -1155,7 +1157,7 @@ Proof.
 Qed.
 
 (* G3 (order-dependent form) *)
-Lemma gauge_quiescent_exact_partial_lemma : forall (progs : list (list gauge_op)) (sched : list Z),
+Lemma gauge_quiescent_completion_order_lemma : forall (progs : list (list gauge_op)) (sched : list Z),
   let c := run_sched gM (init_config gM gauge_init progs) sched in
   all_done gM c = true ->
   Permutation (map (@c_op gM) (hist c)) (concat progs) /\
@@ -1214,3 +1216,286 @@ Definition counter_summary (c : config cM) : Z * Z * Z * list (Z * Z * Z * Z) :=
   (to_bits (valBits (sh c)), valInt (sh c), now c,
    map (fun k : call cM => (c_tid k, c_inv k, c_res k,
                             match c_ret k return Z with CUnit => -1 | CPanic => -2 | CValue v => to_bits v end)) (hist c)).
+
+(* ====================================================================== *)
+(* 10. exact addition on a common grid: the float sum is order-independent *)
+(* ====================================================================== *)
+
+(* the integer value * 2^1100 of an amount accepted by `scaled` *)
+Definition sc (x : f64) : Z := match scaled x with Some (a, _) => a | None => 0 end.
+
+(* the accumulator holds the exact real sum T (or +Inf once T reaches 2^1024) *)
+Definition acc_ok (T : R) (s : f64) : Prop :=
+  (s = pinf /\ (bpow radix2 1024 <= T)%R) \/
+  (is_fin s = true /\ Bsign s = false /\ B2R s = T /\ (T < bpow radix2 1024)%R).
+
+Lemma acc_ok_unique T s s' : acc_ok T s -> acc_ok T s' -> s = s'.
+Proof.
+  intros [[-> H1]|(F1 & S1 & R1 & H1)] [[-> H2]|(F2 & S2 & R2 & H2)]; try reflexivity; try (exfalso; lra).
+  apply B2R_Bsign_inj; try assumption; congruence.
+Qed.
+
+Lemma fadd_fin_sign a x : is_fin a = true -> is_fin x = true ->
+  (Rabs (rnd (B2R a + B2R x)) < bpow radix2 1024)%R ->
+  Bsign (fadd a x) = match Rcompare (B2R a + B2R x) 0 with
+                     | Eq => andb (Bsign a) (Bsign x) | Lt => true | Gt => false end.
+Proof.
+  intros Fa Fx Hlt. pose proof (Bplus_correct 53 1024 Hprec_gt0_64 Hprec_emax64 mode_NE a x Fa Fx) as H.
+  rewrite (Rlt_bool_true _ _ Hlt) in H. destruct H as (_ & _ & H). exact H.
+Qed.
+
+Lemma grid_format n k : 0 <= n < 2 ^ 53 -> -1074 <= k ->
+  generic_format radix2 (SpecFloat.fexp 53 1024) (IZR n * bpow radix2 k).
+Proof.
+  intros Hn Hk. change (SpecFloat.fexp 53 1024) with (FLT_exp (-1074) 53).
+  apply generic_format_FLT. apply (FLT_spec radix2 (-1074) 53 _ (Float radix2 n k)).
+  - reflexivity.
+  - cbn [Fnum]. change (Zpower radix2 53) with (2 ^ 53). lia.
+  - cbn [Fexp]. lia.
+Qed.
+
+Lemma rnd_bpow_ge T : (bpow radix2 1024 <= T)%R -> (bpow radix2 1024 <= rnd T)%R.
+Proof.
+  intros H. apply (@round_ge_generic radix2 (SpecFloat.fexp 53 1024) Hve64 (round_mode mode_NE) (valid_rnd_round_mode mode_NE));
+    [|assumption]. apply generic_format_bpow. cbv. discriminate.
+Qed.
+
+(* one accumulation step *)
+Lemma acc_step T s x : acc_ok T s -> (0 <= T)%R -> is_fin x = true -> (0 <= B2R x)%R ->
+  ((T + B2R x < bpow radix2 1024)%R -> generic_format radix2 (SpecFloat.fexp 53 1024) (T + B2R x)) ->
+  acc_ok (T + B2R x) (fadd s x).
+Proof.
+  intros [[-> H1]|(F1 & S1 & R1 & H1)] HT Fx Hx Hg.
+  - left. split; [destruct x; try discriminate Fx; reflexivity|lra].
+  - subst T. assert (H0 : (0 <= rnd (B2R s + B2R x))%R) by (apply rnd_ge_0; lra).
+    destruct (Rlt_or_le (B2R s + B2R x) (bpow radix2 1024)) as [Hlt|Hge].
+    + specialize (Hg Hlt).
+      assert (Er : rnd (B2R s + B2R x) = (B2R s + B2R x)%R)
+        by (apply round_generic; [apply valid_rnd_round_mode|assumption]).
+      assert (Hab : (Rabs (rnd (B2R s + B2R x)) < bpow radix2 1024)%R) by (rewrite Rabs_pos_eq by assumption; lra).
+      right. destruct (fadd_fin_cases s x F1 Fx) as [(A1 & A2 & A3)|(_ & _ & A3)]; [|exfalso; lra].
+      repeat split; try assumption; [|congruence].
+      rewrite (fadd_fin_sign s x F1 Fx Hab), S1. destruct (Rcompare_spec (B2R s + B2R x) 0); try reflexivity. exfalso; lra.
+    + pose proof (rnd_bpow_ge _ Hge) as Hr. left. split; [|assumption].
+      destruct (fadd_fin_cases s x F1 Fx) as [(_ & _ & A3)|(A1 & _ & _)].
+      * exfalso. rewrite Rabs_pos_eq in A3 by assumption. lra.
+      * rewrite A1, S1. reflexivity.
+Qed.
+
+(* what `scaled` guarantees about one amount *)
+Lemma ctz_pos_spec m : 0 <= ctz_pos m /\ (2 ^ ctz_pos m | Z.pos m).
+Proof.
+  induction m as [q IH|q [IH1 IH2]|]; cbn [ctz_pos].
+  - split; [lia|]. exists (Z.pos q~1). rewrite Z.pow_0_r. lia.
+  - split; [lia|]. destruct IH2 as [z Hz]. exists z. rewrite Z.pow_add_r, Z.pow_1_r by lia.
+    change (Z.pos q~0) with (2 * Z.pos q). rewrite Hz. ring.
+  - split; [lia|]. exists 1. reflexivity.
+Qed.
+
+Lemma pow2_divide a b : 0 <= a <= b -> (2 ^ a | 2 ^ b).
+Proof. intros H. exists (2 ^ (b - a)). rewrite <- Z.pow_add_r by lia. f_equal. lia. Qed.
+
+Lemma IZR_pow2 n j : 0 <= j -> IZR (n * 2 ^ j) = (IZR n * bpow radix2 j)%R.
+Proof. intros Hj. rewrite mult_IZR. f_equal. rewrite <- (IZR_Zpower radix2 j Hj). reflexivity. Qed.
+
+Lemma scaled_spec x a b : scaled x = Some (a, b) ->
+  is_fin x = true /\ sc x = a /\ 0 <= a /\ -1074 <= b /\ (2 ^ (b + 1100) | a) /\
+  B2R x = (IZR a * bpow radix2 (-1100))%R.
+Proof.
+  unfold sc. destruct x as [s| | |s m e Hb]; unfold scaled; try discriminate.
+  - intros H; inversion H; subst. repeat split; try lia; [exists 0; reflexivity|cbn; lra].
+  - destruct s; [discriminate|]. intros H.
+    assert (Ha : Z.pos m * 2 ^ (e + 1100) = a) by congruence. assert (Hb' : e + ctz_pos m = b) by congruence.
+    clear H. subst a b.
+    destruct (bounded_facts _ _ Hb) as (_ & He & _). destruct (ctz_pos_spec m) as [Hc [z Hz]].
+    repeat split; try lia.
+    + rewrite Hz. exists z. rewrite <- Z.mul_assoc, <- Z.pow_add_r by lia. do 2 f_equal. lia.
+    + rewrite IZR_pow2 by lia. cbn [B2R cond_Zopp]. unfold F2R. cbn [Fnum Fexp].
+      rewrite Rmult_assoc, <- bpow_plus. do 2 f_equal. lia.
+Qed.
+
+Lemma mapM_opt_spec {A B} (f : A -> option B) l ys : mapM_opt f l = Some ys -> Forall2 (fun x y => f x = Some y) l ys.
+Proof.
+  revert ys. induction l as [|x r IH]; intros ys H; cbn [mapM_opt] in H.
+  - inversion H; constructor.
+  - destruct (f x) as [y|] eqn:E; [|discriminate]. destruct (mapM_opt f r) as [ys'|]; [|discriminate].
+    inversion H; subst. constructor; [assumption|apply IH; reflexivity].
+Qed.
+
+Lemma Forall2_mono {A B} (P Q : A -> B -> Prop) l l' :
+  (forall x y, P x y -> Q x y) -> Forall2 P l l' -> Forall2 Q l l'.
+Proof. intros H. induction 1; constructor; auto. Qed.
+
+Lemma fold_min_le (ps : list (Z * Z)) : forall k0,
+  fold_left (fun a p => Z.min a (snd p)) ps k0 <= k0 /\
+  Forall (fun p => fold_left (fun a p => Z.min a (snd p)) ps k0 <= snd p) ps.
+Proof.
+  induction ps as [|p r IH]; intros k0; cbn [fold_left]; [split; [lia|constructor]|].
+  destruct (IH (Z.min k0 (snd p))) as [H1 H2]. split; [lia|]. constructor; [lia|assumption].
+Qed.
+Lemma fold_min_ge (ps : list (Z * Z)) lo : Forall (fun p => lo <= snd p) ps -> forall k0, lo <= k0 ->
+  lo <= fold_left (fun a p => Z.min a (snd p)) ps k0.
+Proof. induction 1 as [|p r Hp HF IH]; intros k0 Hk; cbn [fold_left]; [assumption|]. apply IH. lia. Qed.
+Lemma fold_sum_fst (ps : list (Z * Z)) : forall a0, fold_left (fun a p => a + fst p) ps a0 = a0 + zsum (map fst ps).
+Proof. unfold zsum. induction ps as [|p r IH]; intros a0; cbn [fold_left map fold_right]; [lia|]. rewrite IH. lia. Qed.
+
+(* the arithmetic content of grid_ok, in a permutation-invariant form *)
+Definition grid_facts (k : Z) (l : list f64) : Prop :=
+  -1074 <= k /\ zsum (map sc l) < 2 ^ (k + 53 + 1100) /\
+  Forall (fun x => is_fin x = true /\ 0 <= sc x /\ (2 ^ (k + 1100) | sc x) /\
+                   B2R x = (IZR (sc x) * bpow radix2 (-1100))%R) l.
+
+Lemma grid_ok_facts l : grid_ok l = true -> exists k, grid_facts k l.
+Proof.
+  unfold grid_ok. destruct (mapM_opt scaled l) as [ps|] eqn:E; [|discriminate]. intros Hlt.
+  apply mapM_opt_spec in E. set (k := fold_left (fun a p => Z.min a (snd p)) ps 2000) in *.
+  rewrite fold_sum_fst, Z.add_0_l in Hlt. exists k.
+  destruct (fold_min_le ps 2000) as [Hk1 Hk2]. fold k in Hk1, Hk2.
+  assert (Hall : Forall2 (fun x (p : Z * Z) => is_fin x = true /\ sc x = fst p /\ 0 <= fst p /\ -1074 <= snd p /\
+             (2 ^ (snd p + 1100) | fst p) /\ B2R x = (IZR (fst p) * bpow radix2 (-1100))%R) l ps).
+  { eapply Forall2_mono; [|exact E]. intros x [a b] H. apply scaled_spec. exact H. }
+  assert (Hk0 : -1074 <= k).
+  { apply fold_min_ge; [|lia]. clear -Hall. induction Hall as [|x p l ps H HF IH]; constructor; [tauto|assumption]. }
+  clearbody k.
+  assert (Hsum : zsum (map sc l) = zsum (map fst ps)).
+  { clear -Hall. unfold zsum. induction Hall as [|x p l ps H HF IH]; cbn [map fold_right]; [reflexivity|]. rewrite IH. lia. }
+  repeat split; [assumption|rewrite Hsum; lia|].
+  clear -Hall Hk2 Hk0. induction Hall as [|x p l ps H HF IH]; [constructor|]. inversion Hk2; subst.
+  constructor; [|apply IH; assumption].
+  destruct H as (G1 & G2 & G3 & G4 & G5 & G6). rewrite G2. repeat split; try assumption.
+  eapply Z.divide_trans; [apply (pow2_divide (k + 1100) (snd p + 1100)); lia|assumption].
+Qed.
+
+Lemma grid_facts_perm k l l' : Permutation l l' -> grid_facts k l -> grid_facts k l'.
+Proof.
+  intros HP (H1 & H2 & H3). repeat split; [assumption| |eapply Permutation_Forall; eassumption].
+  rewrite <- (zsum_perm _ _ (Permutation_map sc HP)). assumption.
+Qed.
+
+(* the fold is exact: it holds the real sum of all amounts (or +Inf from 2^1024 on) *)
+Lemma fold_grid k l : forall A s, -1074 <= k -> 0 <= A -> (2 ^ (k + 1100) | A) ->
+  A + zsum (map sc l) < 2 ^ (k + 53 + 1100) ->
+  Forall (fun x => is_fin x = true /\ 0 <= sc x /\ (2 ^ (k + 1100) | sc x) /\
+                   B2R x = (IZR (sc x) * bpow radix2 (-1100))%R) l ->
+  acc_ok (IZR A * bpow radix2 (-1100)) s ->
+  acc_ok (IZR (A + zsum (map sc l)) * bpow radix2 (-1100)) (fold_left fadd l s).
+Proof.
+  induction l as [|x r IH]; intros A s Hk HA HD Hlt HF Hs; cbn [map fold_left].
+  - unfold zsum. cbn [fold_right]. rewrite Z.add_0_r. assumption.
+  - inversion HF as [|? ? (Fx & Sx & Dx & Rx) HF']; subst. cbn [map] in Hlt.
+    change (zsum (sc x :: map sc r)) with (sc x + zsum (map sc r)) in *.
+    pose proof (zsum_map_nonneg sc r) as Hnn.
+    assert (Hr0 : 0 <= zsum (map sc r)).
+    { clear -HF'. unfold zsum. induction HF' as [|y t (_ & Hy & _) _ IHt]; cbn [map fold_right]; lia. }
+    rewrite Z.add_assoc. apply IH; try assumption; try lia.
+    + apply Z.divide_add_r; assumption.
+    + rewrite plus_IZR, Rmult_plus_distr_r, <- Rx.
+      pose proof (bpow_gt_0 radix2 (-1100)) as Hb.
+      apply acc_step; try assumption.
+      * apply Rmult_le_pos; [apply IZR_le; lia|lra].
+      * rewrite Rx. apply Rmult_le_pos; [apply IZR_le; lia|lra].
+      * intros _. rewrite Rx, <- Rmult_plus_distr_r, <- plus_IZR.
+        destruct (Z.divide_add_r _ _ _ HD Dx) as [n Hn]. rewrite Hn.
+        assert (Hp : 0 < 2 ^ (k + 1100)) by (apply Z.pow_pos_nonneg; lia).
+        rewrite IZR_pow2 by lia. rewrite Rmult_assoc, <- bpow_plus. replace (k + 1100 + -1100) with k by lia.
+        apply grid_format; [|assumption]. split; [nia|].
+        assert (Hlt2 : n * 2 ^ (k + 1100) < 2 ^ 53 * 2 ^ (k + 1100)).
+        { rewrite <- Z.pow_add_r by lia. replace (53 + (k + 1100)) with (k + 53 + 1100) by lia. lia. }
+        nia.
+Qed.
+
+Lemma acc_ok_pzero : acc_ok (IZR 0 * bpow radix2 (-1100)) pzero.
+Proof. right. rewrite Rmult_0_l. repeat split; try reflexivity. apply bpow_gt_0. Qed.
+
+(* main lemma: on a grid, the float sum does not depend on the order *)
+Lemma fold_grid_perm l l' : grid_ok l = true -> Permutation l l' ->
+  fold_left fadd l' pzero = fold_left fadd l pzero.
+Proof.
+  intros Hg HP. destruct (grid_ok_facts l Hg) as [k Hk]. pose proof (grid_facts_perm k l l' HP Hk) as Hk'.
+  destruct Hk as (K1 & K2 & K3). destruct Hk' as (_ & K2' & K3').
+  assert (Hd : (2 ^ (k + 1100) | 0)) by (exists 0; reflexivity).
+  pose proof (fold_grid k l 0 pzero K1 ltac:(lia) Hd ltac:(lia) K3 acc_ok_pzero) as H1.
+  pose proof (fold_grid k l' 0 pzero K1 ltac:(lia) Hd ltac:(lia) K3' acc_ok_pzero) as H2.
+  rewrite <- (zsum_perm _ _ (Permutation_map sc HP)) in H2.
+  eapply acc_ok_unique; eassumption.
+Qed.
+
+(* exactness: the real value of the sum is the real sum of the amounts (scaled by 2^1100), no rounding *)
+Lemma fold_grid_exact l : grid_ok l = true ->
+  let r := fold_left fadd l pzero in
+  (r = pinf /\ (bpow radix2 1024 <= IZR (zsum (map sc l)) * bpow radix2 (-1100))%R) \/
+  (is_fin r = true /\ B2R r = (IZR (zsum (map sc l)) * bpow radix2 (-1100))%R).
+Proof.
+  intros Hg r. destruct (grid_ok_facts l Hg) as [k (K1 & K2 & K3)].
+  assert (Hd : (2 ^ (k + 1100) | 0)) by (exists 0; reflexivity).
+  pose proof (fold_grid k l 0 pzero K1 ltac:(lia) Hd ltac:(lia) K3 acc_ok_pzero) as H1.
+  rewrite Z.add_0_l in H1. fold r in H1. destruct H1 as [[H1 H2]|(H1 & _ & H2 & _)]; [left|right]; split; assumption.
+Qed.
+
+(* real sum of the amounts *)
+Definition rsum (l : list f64) : R := fold_right Rplus 0%R (map (@B2R 53 1024) l).
+
+Lemma grid_rsum k l : grid_facts k l -> rsum l = (IZR (zsum (map sc l)) * bpow radix2 (-1100))%R.
+Proof.
+  intros (_ & _ & HF). unfold rsum, zsum. induction HF as [|x r (_ & _ & _ & Hx) _ IH]; cbn [map fold_right].
+  - rewrite Rmult_0_l. reflexivity.
+  - rewrite IH, Hx, plus_IZR. ring.
+Qed.
+
+Lemma grid_sum_exact_lemma : forall l : list f64, grid_ok l = true ->
+  let r := fold_left fadd l pzero in
+  (r = pinf /\ (bpow radix2 1024 <= rsum l)%R) \/ (is_fin r = true /\ B2R r = rsum l).
+Proof.
+  intros l Hg r. destruct (grid_ok_facts l Hg) as [k Hk]. rewrite (grid_rsum k l Hk). apply fold_grid_exact. assumption.
+Qed.
+
+Lemma grid_sum_order_independent_lemma : forall l l' : list f64, grid_ok l = true -> Permutation l l' ->
+  fold_left fadd l' pzero = fold_left fadd l pzero.
+Proof. exact fold_grid_perm. Qed.
+
+(* G3 *)
+Lemma gauge_quiescent_exact_lemma : forall (progs : list (list gauge_op)) (sched : list Z),
+  let c := run_sched gM (init_config gM gauge_init progs) sched in
+  all_done gM c = true -> Forall no_set (concat progs) -> grid_ok (flat_map ga (concat progs)) = true ->
+  sh c = fold_left fadd (flat_map ga (concat progs)) pzero.
+Proof.
+  intros progs sched c Hd Hns Hg.
+  destruct (gauge_quiescent_completion_order_lemma progs sched Hd) as (HP & _ & H). fold c in HP, H.
+  rewrite (H Hns). apply fold_grid_perm; [assumption|]. apply Permutation_flat_map. apply Permutation_sym. exact HP.
+Qed.
+
+(* C5, schedule-independent form *)
+Lemma counter_quiescent_grid_lemma : forall (progs : list (list counter_op)) (sched : list Z),
+  let c := run_sched cM (init_config cM counter_init progs) sched in
+  all_done cM c = true -> grid_ok (flat_map ca (concat progs)) = true ->
+  valBits (sh c) = sum_amounts (flat_map ca (concat progs)) /\
+  valInt (sh c) = zsum (map ia (concat progs)) mod two64 /\
+  fadd (valBits (sh c)) (of_Z (valInt (sh c))) =
+    fadd (sum_amounts (flat_map ca (concat progs))) (of_Z (zsum (map ia (concat progs)) mod two64)).
+Proof.
+  intros progs sched c Hd Hg.
+  destruct (counter_quiescent_exact_lemma progs sched Hd) as (_ & HP & HI & HB & _). fold c in HP, HI, HB.
+  assert (HB' : valBits (sh c) = sum_amounts (flat_map ca (concat progs))).
+  { rewrite HB. unfold sum_amounts. apply fold_grid_perm; [assumption|]. apply Permutation_sym. exact HP. }
+  rewrite HB', HI. repeat split.
+Qed.
+
+(* the exposed value is the exact real total rounded once (exact when the total is representable) *)
+Lemma counter_value_rounded_lemma : forall (amounts : list f64) (i : Z),
+  grid_ok amounts = true -> 0 <= i < 2 ^ 53 ->
+  let v := fadd (sum_amounts amounts) (of_Z i) in
+  is_fin v = true ->
+  B2R v = round radix2 (SpecFloat.fexp 53 1024) (round_mode mode_NE) (rsum amounts + IZR i).
+Proof.
+  intros l i Hg Hi v Fv.
+  destruct (of_Z_spec i ltac:(change (2 ^ 64) with 18446744073709551616; change (2 ^ 53) with 9007199254740992 in Hi; lia)) as [Fi Ri].
+  assert (Ei : B2R (of_Z i) = IZR i).
+  { rewrite Ri. apply round_generic; [apply valid_rnd_round_mode|].
+    rewrite <- (Rmult_1_r (IZR i)). change 1%R with (bpow radix2 0). apply grid_format; lia. }
+  destruct (grid_sum_exact_lemma l Hg) as [[H1 _]|[H1 H2]]; fold (sum_amounts l) in H1.
+  - exfalso. unfold v in Fv. rewrite H1 in Fv. destruct (of_Z i); try discriminate Fi; discriminate Fv.
+  - fold (sum_amounts l) in H2.
+    destruct (fadd_fin_cases _ _ H1 Fi) as [(_ & A2 & _)|(A1 & _ & _)].
+    + unfold v. rewrite A2, H2, Ei. reflexivity.
+    + exfalso. unfold v in Fv. rewrite A1 in Fv. discriminate Fv.
+Qed.
